@@ -103,7 +103,10 @@ func runScripted(rep *Report, leanMode string, mk func() Impl, cases []Case, ora
 					continue
 				}
 				seenOracle++
-				small := shrink(c, keep, func(x Case) bool { return oracle(x, runGo(mk, x)) != "" })
+				deadline := time.Now().Add(25 * time.Second)
+				small := shrink(c, keep, func(x Case) bool {
+					return !time.Now().After(deadline) && oracle(x, runGo(mk, x)) != ""
+				})
 				gout := runGo(mk, small)
 				v := Violation{Property: rep.Property, Kind: "oracle", Clause: oracle(small, gout), Script: small.Lines, GoOut: gout}
 				if lo2, e := runLean(leanMode, []Case{small}); e == nil {
@@ -122,7 +125,14 @@ func runScripted(rep *Report, leanMode string, mk func() Impl, cases []Case, ora
 				continue
 			}
 			c := part[i]
+			if d0 := firstDiff(goOuts[i], leanOuts[i]); d0 >= 0 && d0+1 < len(c.Lines) {
+				c = Case{Name: c.Name, Lines: c.Lines[:d0+1], Features: c.Features, Keep: c.Keep}
+			}
+			deadline := time.Now().Add(25 * time.Second)
 			small := shrink(c, keep, func(x Case) bool {
+				if time.Now().After(deadline) {
+					return false
+				}
 				g := runGo(mk, x)
 				l, e := runLean(leanMode, []Case{x})
 				return e == nil && firstDiff(g, l[0]) >= 0
